@@ -340,6 +340,109 @@ def mt_violation(run, r):
     print("  concurrent outcome differs from every sequential order: " + json.dumps(r.get("agg"))[:400])
 
 
+def table_check(run, spec, invariants, env, nconc, label):
+    """TLC enumerates a decision table / small state machine completely and prints every row with the
+    outcome the specification computes; each row is executed on the real crate (nconc concrete
+    members per abstract class); returns the list of failing records"""
+    cfg = "SPECIFICATION Spec\n" + "".join(f"INVARIANT {i}\n" for i in invariants) + "INVARIANT Emit\nCHECK_DEADLOCK FALSE\n"
+    out = lib.mc(run, spec, cfg, env, workers=8, timeout=1500, label=label)
+    cases = []
+    seen = set()
+    for m in lib.re.finditer(r'<<\s*"CASE",\s*"((?:[^"\\]|\\.)*)"\s*>>', out, lib.re.S):
+        s = m.group(1)
+        if s in seen:
+            continue
+        seen.add(s)
+        cases.append(json.loads(json.loads('"' + s + '"')))
+    if not cases:
+        raise lib.ToolError(f"{spec}: no cases printed")
+    cp, op = run.path(f"{label}.cases"), run.path(f"{label}.out")
+    with open(cp, "w") as f:
+        for c in cases:
+            f.write(json.dumps(c) + "\n")
+    run.sample({"source": f"row of {spec}", "case": {k: cases[len(cases) // 3][k] for k in ("in", "out")}})
+    rc, o = lib.sh([lib.BIN, "caps", cp, op, str(nconc)], timeout=3000)
+    if rc != 0:
+        raise lib.ToolError(f"caps harness failed on {spec}: " + o[-2000:])
+    fails = []
+    summary = None
+    for l in open(op):
+        r = json.loads(l)
+        if r.get("summary"):
+            summary = r
+        else:
+            fails.append(r)
+    run.traces += summary["executions"]
+    run.stages.append({"stage": label, "kind": "table-rows-executed", "spec": spec, "rows": len(cases),
+                       "executions": summary["executions"], "mismatches": summary["bad"],
+                       "known_deviation_hits": summary["known"]})
+    return cases, fails, summary
+
+
+def report_table_fails(run, spec, fails, limit=5):
+    kfs = {f["id"]: f for f in lib.known_findings()["findings"]}
+    shown = 0
+    for r in fails:
+        if r.get("known") and r["known"] in kfs and run.prop in kfs[r["known"]]["properties"]:
+            run.known(kfs[r["known"]])
+            continue
+        if shown < limit:
+            run.violations += 1
+            p = os.path.join(lib.WORK, "replay", f"{run.prop}-{run.violations}.json")
+            with open(p, "w") as f:
+                json.dump({"kind": "table", "property": run.prop, "spec": spec, "case": r}, f, indent=1)
+            print(f"VIOLATION property={run.prop} replay={p}")
+            print("  expected " + json.dumps(r["expected"])[:300])
+            print("  observed " + json.dumps(r["observed"])[:300])
+            shown += 1
+        else:
+            run.violations += 1
+
+
+def c17(run):
+    run.assumptions = ["responses are of the kind that matches the call (a mismatched kind is a documented "
+                       "developer error that panics)",
+                       "keys / values / cursors / messages are drawn from pools containing empty, unicode, binary, "
+                       "very long and extreme members of each class (3 per class quick, 3 thorough: the pools are small)"]
+    cases, fails, _ = table_check(run, "KeyValue", ["AbsentIsNotEmpty"], {}, 3, "KeyValue")
+    report_table_fails(run, "KeyValue", fails)
+
+
+def c14(run):
+    run.assumptions = ["header names and values are ASCII (http-types rejects others at the app's call site)",
+                       "the expected URL is url::Url::parse(input) rendered -- the documented normal form; "
+                       "URL and body re-encoding questions are sampled inside each abstract class (pools in caps.rs)"]
+    cases, fails, _ = table_check(run, "HttpBuilder", ["ContentTypeRule"], {}, 2 if run.quick else 3, "HttpBuilder")
+    report_table_fails(run, "HttpBuilder", fails)
+
+
+def c15(run):
+    run.assumptions = ["bodies, content types and header lists are drawn from pools per abstract class (caps.rs)",
+                       "status codes: full product of the other dimensions for 21 representative statuses; every "
+                       "status 0..65535 individually for one default combination (thorough; quick: product only plus "
+                       "a stride of the sweep)"]
+    cases, fails, _ = table_check(run, "HttpOutcome", ["ExactlyOneClass", "ErrorsOnlyFor4xx5xx", "ShellErrorsPassThrough"],
+                                  {"MODE": "product"}, 2 if run.quick else 3, "HttpOutcome-product")
+    report_table_fails(run, "HttpOutcome", fails)
+    if not run.quick:
+        cases, fails, _ = table_check(run, "HttpOutcome", ["ExactlyOneClass"], {"MODE": "sweep"}, 1, "HttpOutcome-sweep")
+        report_table_fails(run, "HttpOutcome", fails)
+
+
+def c16(run):
+    run.assumptions = ["client-level middleware cannot be installed through the public API at this commit "
+                       "(Client::with is pub(crate) and unused): the client stack is empty",
+                       "redirect graphs are chains of <= 4 hops from the start URL (absolute / relative-dir / "
+                       "relative-file / missing / invalid Location), attempt limits 0..3, stacks of <= 3 middleware"]
+    cases, fails, _ = table_check(run, "HttpMiddleware", ["BodyOnce", "BoundedProbes"], {}, 1, "HttpMiddleware")
+    report_table_fails(run, "HttpMiddleware", fails)
+
+
+def c11_valueeq(run):
+    cases, fails, _ = table_check(run, "ValueEq", ["Reflexive"], {}, 2, "ValueEq")
+    report_table_fails(run, "ValueEq", fails)
+
+
 TIMER_INV = ["AtMostOneOutcome", "CompletedOnlyIfAnswered", "ClearedOnlyIfAppCleared", "EarlyClearSendsNothing",
              "ExactlyOneClearRequest", "DropHandleNeverCancels", "AbandonedOnlyIfDropped", "NothingAfterOutcome"]
 
@@ -394,5 +497,5 @@ def c18(run):
             run.stages.append({"stage": "binding-selftest", "spec": "Trace_Timer", "corruptions_rejected": 1})
 
 
-CHECKS = {"C18": c18, "C08": c08, "C12": c12, "C01": c01, "C02": c02, "C03": c03, "C04": c04, "C05": c05, "C06": c06, "C07": c07,
+CHECKS = {"C14": c14, "C15": c15, "C16": c16, "C17": c17, "C11": c11_valueeq, "C18": c18, "C08": c08, "C12": c12, "C01": c01, "C02": c02, "C03": c03, "C04": c04, "C05": c05, "C06": c06, "C07": c07,
           "C09": c09, "C13": c13}
